@@ -41,12 +41,14 @@ where
 		Input::Reader(r) => transcode_reader(BufReader::new(r), output),
 		Input::Slice(b) => match str::from_utf8(&b) {
 			Ok(s) => {
+				vhit!(YAML_SLICE_UTF8_PATH);
 				for de in serde_yaml::Deserializer::from_str(s) {
 					output.transcode_from(de)?;
 				}
 				Ok(())
 			}
 			Err(_) => {
+				vhit!(YAML_SLICE_REENCODE_PATH);
 				// The reader path supports automatic re-encoding of UTF-16 and
 				// UTF-32 input. See transcode_reader for details.
 				transcode_reader(&*b, output)
@@ -60,6 +62,7 @@ where
 	R: BufRead,
 	O: crate::Output,
 {
+	vhit!(YAML_READER_PATH);
 	// serde_yaml imposes a couple of interesting limitations on us, which
 	// aren't clear from the documentation alone but are reflected in this
 	// usage.
@@ -86,6 +89,56 @@ where
 		output.transcode_from(de)?;
 	}
 	Ok(())
+}
+
+/// Verification hook: see [`crate::verif::yaml_encoding_detect`].
+#[cfg(feature = "verif")]
+pub(crate) fn verif_encoding_detect(prefix: &[u8]) -> &'static str {
+	match Encoding::detect(prefix) {
+		Encoding::Utf8 => "utf8",
+		Encoding::Utf16Big => "utf16be",
+		Encoding::Utf32Big => "utf32be",
+		Encoding::Utf16Little => "utf16le",
+		Encoding::Utf32Little => "utf32le",
+	}
+}
+
+/// Verification hook: see [`crate::verif::yaml_reencoder`].
+#[cfg(feature = "verif")]
+pub(crate) fn verif_reencoder<'r, R: BufRead + 'r>(r: R) -> io::Result<Box<dyn io::Read + 'r>> {
+	Ok(Box::new(Encoder::from_reader(r)?))
+}
+
+/// Verification hook: see [`crate::verif::yaml_reencoder_as`].
+#[cfg(feature = "verif")]
+pub(crate) fn verif_reencoder_as<'r, R: BufRead + 'r>(
+	r: R,
+	encoding: &str,
+) -> Option<Box<dyn io::Read + 'r>> {
+	let encoding = match encoding {
+		"utf8" => Encoding::Utf8,
+		"utf16be" => Encoding::Utf16Big,
+		"utf32be" => Encoding::Utf32Big,
+		"utf16le" => Encoding::Utf16Little,
+		"utf32le" => Encoding::Utf32Little,
+		_ => return None,
+	};
+	Some(Box::new(Encoder::new(r, encoding)))
+}
+
+/// Verification hook: see [`crate::verif::yaml_chunks`].
+#[cfg(feature = "verif")]
+pub(crate) fn verif_chunks<R: io::Read>(r: R, max_docs: usize) -> Vec<io::Result<(String, bool)>> {
+	Chunker::new(r)
+		.take(max_docs)
+		.map(|doc| doc.map(|doc| (doc.content().to_owned(), doc.is_collection())))
+		.collect()
+}
+
+/// Verification hook: see [`crate::verif::yaml_events_then_drop`].
+#[cfg(feature = "verif")]
+pub(crate) fn verif_events_then_drop<R: io::Read>(r: R, max_events: usize) -> (usize, bool) {
+	chunker::verif_events_then_drop(r, max_events)
 }
 
 pub(crate) struct Output<W: Write>(W);
